@@ -193,6 +193,23 @@ def _run_frontends(items):
                             sigs.append(dict(base, frontend='pandas', what='result rows', got=rows, want=exp['out']))
                         if exp['hashdr'] and [str(c) for c in rdf.columns] != list(exp['hdr']):
                             sigs.append(dict(base, frontend='pandas', what='header', got=[str(c) for c in rdf.columns], want=exp['hdr']))
+            # 5b. pandas with a duplicated column label (columns referenced by position): rows and header as through the lists
+            if case['hasHdr'] and A and not joined and len(hdrA) >= 2:
+                ptext = engine.render_query(case, engine.Plain(), 'py')
+                dup = [hdrA[0]] * len(hdrA)
+                ren = dict(zip(hdrA, dup))
+                err = None
+                try:
+                    rdf = rbql_pandas.query_dataframe(ptext, pd.DataFrame(A, columns=dup))
+                except Exception as e:  # noqa
+                    err = engine.project_error(eng, e)['cls']
+                nruns += 1
+                if not outcome_mismatch('pandas-duplicate-labels', err) and err is None:
+                    rows = [[engine.project_value(None if (isinstance(c, float) and c != c) else c) for c in r] for r in rdf.values.tolist()]
+                    if not engine.rows_match(rows, exp['out']):
+                        sigs.append(dict(base, frontend='pandas-duplicate-labels', what='result rows', got=rows, want=exp['out'], query=ptext))
+                    if exp['hashdr'] and [str(c) for c in rdf.columns] != [ren.get(h, h) for h in exp['hdr']]:
+                        sigs.append(dict(base, frontend='pandas-duplicate-labels', what='header', got=[str(c) for c in rdf.columns], want=[ren.get(h, h) for h in exp['hdr']], query=ptext))
             # 6. sqlite (column names always exist)
             if case['hasHdr'] and A:
                 db = os.path.join(d, 't.db')
